@@ -8,7 +8,9 @@ from . import grouptu
 PID = "C02"
 TOL = 1e-9
 THRESH = [Fraction(1, 10**8), Fraction(1, 10**7), Fraction(1, 10**6), Fraction(1, 10**5), Fraction(1, 10**4), Fraction(1, 10**3), Fraction(1, 100)]
-LBOX = [1, 1000]  # translation magnitude boxes for the series-path bound queries (tol scales with the box)
+LBOX = [1000]  # translation magnitude box for the series-path bound queries.  The tolerance is ABSOLUTE (tol times a guaranteed lower
+# bound of the largest entry of the exact result: 1 for group matrices / Jacobians near the identity, 1/2 for Hessians), which is the
+# sound direction: a failed bound is only a candidate and goes to the native replay, which applies the true relative criterion
 
 
 def tangent_sampler(g, scale_rot=None, well_conditioned=False):
@@ -17,8 +19,9 @@ def tangent_sampler(g, scale_rot=None, well_conditioned=False):
     series switch where the library's own closed forms cancel and two correct compilations legitimately differ."""
     def s(k):
         r = random.Random(k)
-        a = [r.uniform(-3, 3) for _ in range(g.dof)]
-        strata = [None, 1e-12, 1e-6, 0.99e-4, 1.01e-4, 3e-4, 1e-3, 1e-2, 0.5, 3.0, math.pi - 1e-9, math.pi + 1e-9, 7.0, 45.0]
+        tscale = 3.0 if (k // 16) % 2 == 0 or well_conditioned else 1000.0   # moderate and large translation magnitudes
+        a = [r.uniform(-tscale, tscale) for _ in range(g.dof)]
+        strata = [None, 1e-12, 1e-6, 0.99e-4, 1.01e-4, 3e-4, 1e-3, 1e-2, 0.5, 3.0, math.pi - 1e-9, math.pi + 1e-9, 7.0, 12.0, 25.0, 45.0]
         if well_conditioned:
             strata = [None, 1e-12, 1e-6, 0.5, 2.0, 3.0]
         tgt = strata[k % len(strata)]
@@ -26,10 +29,11 @@ def tangent_sampler(g, scale_rot=None, well_conditioned=False):
             idx = [do + i for i in blk.rot]
             if not idx:
                 continue
-            if tgt is not None:
-                n = math.sqrt(sum(a[i] ** 2 for i in idx)) or 1.0
-                for i in idx:
-                    a[i] = a[i] / n * tgt
+            if tgt is None:
+                tgt = r.uniform(0.1, 3.0)
+            n = math.sqrt(sum(a[i] ** 2 for i in idx)) or 1.0
+            for i in idx:
+                a[i] = a[i] / n * tgt
         return a
     return s
 
@@ -181,8 +185,8 @@ def series_handler(g, a, blocks, bi, Tmax, oracle_entry, xi, res):
             box = series_box(num, den, g, reg, L)
             if box is None:
                 return solver.Verdict("undecided", "series path with an atom that cannot be enclosed")
-            v = solver.check_bound(num, box, Fraction(TOL) * L, den_poly=None if T.p_is_const(den) else den, max_split=12)
-            res.bounds.add("series-path boxes: |rot a| <= sqrt(T) (T from the path condition, here %s), translations <= %s with tol %g*%s" % (Tmax, LBOX, TOL, LBOX))
+            v = solver.check_bound(num, box, Fraction(TOL), den_poly=None if T.p_is_const(den) else den, max_split=12)
+            res.bounds.add("series-path boxes: |rot a| <= sqrt(T) (T from the path condition, here %s), translations <= %s, absolute tol %g" % (Tmax, LBOX, TOL))
             if v.status != "holds":
                 return v
             worst = v
@@ -297,8 +301,8 @@ def series_handler(g, a, blocks, bi, Tmax, oracle_entry, xi, res):
             box = solver.box_for([num, den], sym_box)
             if box is None:
                 return solver.Verdict("undecided", "series path with an atom that cannot be enclosed")
-            v = solver.check_bound(num, box, Fraction(TOL) * L, den_poly=None if T.p_is_const(den) else den, max_split=12)
-            res.bounds.add("series-path boxes: |rot a_i| <= sqrt(T) (T from the path condition, here %s), translations <= %s with tol %g*%s" % (Tmax, LBOX, TOL, LBOX))
+            v = solver.check_bound(num, box, Fraction(TOL), den_poly=None if T.p_is_const(den) else den, max_split=12)
+            res.bounds.add("series-path boxes: |rot a_i| <= sqrt(T) (T from the path condition, here %s), translations <= %s, absolute tol %g" % (Tmax, LBOX, TOL))
             if v.status != "holds":
                 return v
             worst = v
@@ -399,7 +403,7 @@ def series_roundtrip(term, g, a, reg, res):
         box = series_box(num, den, g, reg, L)
         if box is None:
             return solver.Verdict("undecided", "series round trip with an atom that cannot be enclosed")
-        v = solver.check_bound(num, box, Fraction(TOL) * L, den_poly=None if T.p_is_const(den) else den, max_split=12)
+        v = solver.check_bound(num, box, Fraction(TOL), den_poly=None if T.p_is_const(den) else den, max_split=12)
         if v.status != "holds":
             v.status = "undecided"
             return v
@@ -603,7 +607,7 @@ def series_element_bound(term, g, small):
         box = solver.box_for([n2, d2], sym_box)
         if box is None:
             return solver.Verdict("undecided", "series round trip with an atom that cannot be enclosed")
-        v = solver.check_bound(n2, box, Fraction(TOL) * L, den_poly=None if T.p_is_const(d2) else d2, max_split=12)
+        v = solver.check_bound(n2, box, Fraction(TOL), den_poly=None if T.p_is_const(d2) else d2, max_split=12)
         if v.status != "holds":
             v.status = "undecided"
             return v
